@@ -247,6 +247,13 @@ fn collect(state: &State, possible_cycles: &PossibleCycles) {
 
     let _drop_guard = DropGuard { state };
 
+    // A collection can also be started by a finalizer or a destructor which is being executed outside of collections
+    // (see Cc::drop), i.e. while state.finalizing or state.dropping are set. Reset them for the duration of this
+    // collection (they are restored when it ends), so that state.is_tracing() is true while tracing.
+    #[cfg(feature = "finalization")]
+    let _finalizing_guard = replace_state_field!(finalizing, false, state);
+    let _dropping_guard = replace_state_field!(dropping, false, state);
+
     #[cfg(feature = "finalization")]
     for _ in 0..10 {
         // Limit to 10 executions. A collection usually completes in 2 executions, so passing
